@@ -39,7 +39,7 @@ def load_files(*file_names: Union[str, Path]) -> Database:
         elif p.suffix.lower().startswith(".odx"):
             db.add_odx_file(str(file_name))
         elif p.name.lower() != "index.xml":
-            db.add_auxiliary_file(str(file_name))
+            db.add_auxiliary_file(p.name, open(str(file_name), "rb"))
 
     db.refresh()
     return db
